@@ -538,6 +538,9 @@ func (c *valConfig) genContainer(rt *rapid.T, depth int, pub bool) *Val {
 	}
 	v := &Val{K: k}
 	n := rapid.IntRange(0, 3).Draw(rt, "cn")
+	if rapid.IntRange(0, 24).Draw(rt, "cbig") == 0 {
+		n = rapid.IntRange(6, 20).Draw(rt, "cnbig") // many elements
+	}
 	switch k {
 	case "islice", "pislice":
 		for i := 0; i < n; i++ {
@@ -628,7 +631,7 @@ func (c *valConfig) genContainer(rt *rapid.T, depth int, pub bool) *Val {
 // n >= 2 the keys get a shared, distinct, order-fixing first rune and a
 // varying tail, so that the relative key order is the same in A and B.
 func (c *valConfig) genStrKeys(rt *rapid.T, v *Val, n int, pub bool) {
-	firsts := []string{"a", "b", "c", "d"}
+	firsts := []string{"a", "b", "c", "d", "e", "f", "g", "h", "i", "j", "k", "l", "m", "n", "o", "p", "q", "r", "s", "t", "u"}
 	for i := 0; i < n; i++ {
 		tail := c.payload(rt, "key")
 		k := &Val{K: "str", S: append([]byte(firsts[i]), tail...)}
